@@ -258,10 +258,10 @@ Norm(tr) ==
          ELSE LET ps == [i \in DOMAIN as |-> as[i].p]
                   ms == UNION {as[i].ms : i \in DOMAIN as} IN
               IF Mixes(ms) THEN UndefBy("mix")
-              ELSE IF (\A i \in DOMAIN ps : IsTerm(ps[i])) /\ Cardinality(ms) = 1
-                      /\ (\A i \in DOMAIN ps : TermMono(ps[i]) \in ms)
+              ELSE IF Cardinality(ms) = 1
+                      /\ (\A i \in DOMAIN ps : ps[i] = PZero \/ (IsTerm(ps[i]) /\ TermMono(ps[i]) \in ms))
                       /\ (\A m \in ms : \A s \in DOMAIN m : s[1] = "u")
-              THEN LET c(i) == TermCoef(ps[i])
+              THEN LET c(i) == IF ps[i] = PZero THEN <<0, 1>> ELSE TermCoef(ps[i])
                        lo(S) == CHOOSE i \in S : \A j \in S : ~RLess(c(j), c(i))
                        hi(S) == CHOOSE i \in S : \A j \in S : ~RLess(c(i), c(j))
                        all == DOMAIN ps IN
